@@ -2,6 +2,7 @@ package props
 
 import (
 	"fmt"
+	"go/types"
 	"strings"
 
 	"gmslverif/fw"
@@ -67,6 +68,17 @@ func requireOnSuccessIdx(c *fw.Ctx, rule, fname string, fn *ssa.Function, idx in
 		return
 	}
 	c.Count("success_terms", len(succ))
+	// a table of stages (functions held in a package-level or local list and called in a loop)
+	// hides every check it performs from the path conditions
+	stageTable := ""
+	for _, call := range fw.Calls(fn) {
+		if call.Common().IsInvoke() || call.Common().StaticCallee() != nil {
+			continue
+		}
+		if funcFromTable(call.Common().Value, 0) {
+			stageTable = c.P.Pos(call.Pos())
+		}
+	}
 	for _, n := range needs {
 		bad, opaque := "", ""
 		for _, r := range succ {
@@ -90,7 +102,7 @@ func requireOnSuccessIdx(c *fw.Ctx, rule, fname string, fn *ssa.Function, idx in
 					}
 					// the result of an unexported helper (a method of a request object, a function
 					// with several results) that the expansion could not open
-					if fw.AtomCallsUnexportedHelper(l.Atom) {
+					if fw.AtomCallsUnexportedHelper(l.Atom) || strings.Contains(l.Atom, "dyn(") {
 						op = l.Atom
 					}
 				}
@@ -100,6 +112,10 @@ func requireOnSuccessIdx(c *fw.Ctx, rule, fname string, fn *ssa.Function, idx in
 					bad = c.P.Pos(fw.InstrPos(r.Ret))
 				}
 			}
+		}
+		if bad != "" && stageTable != "" {
+			c.Undecided(rule, fname+": success requires "+n.what, "the function runs a table of stages (call at "+stageTable+"): what they check is not visible in its path conditions")
+			continue
 		}
 		switch {
 		case bad != "":
@@ -242,7 +258,19 @@ func checkC15(c *fw.Ctx) {
 		for _, st := range stores {
 			s := fw.Sig(st.Val)
 			ok := strings.HasPrefix(s, "(gmsl.PDU).Sign("+ev+",") && containsAll(s, "*&param:input.LocalServerName", "*&param:input.KeyID", "*&param:input.PrivateKey")
-			c.Check(ok, "3 send_join", "the returned join event is the checked event counter-signed by the local server", c.P.Pos(fw.InstrPos(st)), "", "HandleSendJoinResponse.JoinEvent = "+s+": an accepted join is returned without the local server's signature (or another event is returned)")
+			construct := "the returned join event is the checked event counter-signed by the local server"
+			signed := strings.HasPrefix(s, "(gmsl.PDU).Sign(")
+			switch {
+			case ok:
+				c.Ok("3 send_join", construct, c.P.Pos(fw.InstrPos(st)), "")
+			case !signed:
+				// positive evidence: what is returned is not the result of Sign at all
+				c.Fail("3 send_join", construct, c.P.Pos(fw.InstrPos(st)), "HandleSendJoinResponse.JoinEvent = "+s+": an accepted join is returned without the local server's signature")
+			case signed && !containsAll(s, "input.LocalServerName", "input.KeyID", "input.PrivateKey"):
+				c.Fail("3 send_join", construct, c.P.Pos(fw.InstrPos(st)), "HandleSendJoinResponse.JoinEvent = "+s+": the event is not signed with the local server's name, key id and key")
+			default:
+				c.Undecided("3 send_join", construct, "the signed event ("+s+") could not be identified with the event that was checked")
+			}
 		}
 		c.Min("3 send_join response sites", len(stores), 1)
 	}
@@ -594,4 +622,45 @@ func checkPerformJoin(c *fw.Ctx) {
 			nd("its room version is registered", true, "gmsl.RoomVersions()[", "]#1"),
 		}, 1)
 	}
+}
+
+// funcFromTable: the function value v is an element of a list of functions (a package-level
+// variable or a local array / slice literal), e.g. the loop variable of `for _, stage := range stages`.
+func funcFromTable(v ssa.Value, depth int) bool {
+	if depth > 8 {
+		return false
+	}
+	switch x := v.(type) {
+	case *ssa.UnOp:
+		if g, ok := x.X.(*ssa.Global); ok {
+			_, isSlice := g.Type().Underlying().(*types.Pointer).Elem().Underlying().(*types.Slice)
+			_, isArr := g.Type().Underlying().(*types.Pointer).Elem().Underlying().(*types.Array)
+			return isSlice || isArr
+		}
+		return funcFromTable(x.X, depth+1)
+	case *ssa.IndexAddr:
+		return funcFromTable(x.X, depth+1)
+	case *ssa.Index:
+		return funcFromTable(x.X, depth+1)
+	case *ssa.Slice:
+		return funcFromTable(x.X, depth+1)
+	case *ssa.Extract:
+		return funcFromTable(x.Tuple, depth+1)
+	case *ssa.Next:
+		return funcFromTable(x.Iter, depth+1)
+	case *ssa.Range:
+		return funcFromTable(x.X, depth+1)
+	case *ssa.Phi:
+		for _, e := range x.Edges {
+			if funcFromTable(e, depth+1) {
+				return true
+			}
+		}
+	case *ssa.Alloc:
+		if arr, ok := x.Type().Underlying().(*types.Pointer).Elem().Underlying().(*types.Array); ok {
+			_, isFn := arr.Elem().Underlying().(*types.Signature)
+			return isFn
+		}
+	}
+	return false
 }
